@@ -501,6 +501,7 @@ def record_dis(seed: int, count: int, maxlen: int, corpus: list):
         else:
             n = r.choice([300, 5000, maxlen])
             body = r.randbytes(n)
+            n = min(n, 65535)          # (the length field is two bytes; a longer body simply continues after the item)
             b = r.choice([bytes([4]) + n.to_bytes(2, 'big') + body, bytes([43]) + n.to_bytes(2, 'big') + body,
                           bytes([4]) + r.choice([b'\x7f\xff', b'\x80\x00', b'\xff\xff']) + body, body])
         st, lines = with_timeout(lambda: ts.decompile_script(b), 20)
